@@ -357,6 +357,31 @@ mod wasm_scheduler {
   }
 }
 
+/// Verification-only scheduler (feature `verif_hooks`): hands every task to a
+/// caller-supplied spawn function, so that a controlled executor can run it.
+/// The task body is wrapped exactly like for the shipped schedulers.
+#[cfg(feature = "verif_hooks")]
+#[derive(Clone)]
+pub struct SpawnFnScheduler(
+  pub std::sync::Arc<dyn Fn(BoxFuture<'static, ()>) + Send + Sync>,
+);
+
+#[cfg(feature = "verif_hooks")]
+macro_rules! spawn_fn_spawn {
+  ($pool: ident, $future: ident) => {
+    ($pool.0)(Box::pin($future))
+  };
+}
+
+#[cfg(feature = "verif_hooks")]
+impl<T> Scheduler<T> for SpawnFnScheduler
+where
+  T: Future + Send + 'static,
+  T::Output: TaskReturn + Send + 'static,
+{
+  impl_scheduler_method!(spawn_fn_spawn);
+}
+
 #[cfg(not(target_arch = "wasm32"))]
 mod not_wasm_scheduler {
   use super::*;
